@@ -2,6 +2,7 @@ package worlds
 
 import (
 	"fmt"
+	"github.com/alttpo/snes/emulator/memory"
 
 	"github.com/alttpo/snes/asm"
 	"github.com/alttpo/snes/emulator/cpu65c816"
@@ -682,8 +683,45 @@ func (c07) Exec(sc *sim.Scenario, env *sim.Env) *sim.Violation {
 			st.Probe("cpu_made_with_InitFrom")
 		}
 		cpu := mc.CPU
+		if kind == 0 && sim.Mix(sc.Seed^0x40B)%5 == 0 && sc.C("initfrom") == 0 {
+			// the machine is built first and the program assembled into its ROM afterwards:
+			// a memory.ROM device over the program's 16-byte blocks, made from a buffer that
+			// holds STP where the program will be; the program arrives after the Attach
+			lo, hi := base&^0xF, (base+uint32(len(prog))-1)|0xF
+			backing := make([]byte, hi-lo+1)
+			for j := range backing {
+				backing[j] = mem.Peek(lo + uint32(j))
+			}
+			for j := range prog {
+				backing[base-lo+uint32(j)] = 0xDB
+			}
+			if err := mc.AttachOver(memory.NewROM(backing, lo), "program", lo, hi); err != nil {
+				panic("harness: " + err.Error())
+			}
+			copy(backing[base-lo:], prog)
+			st.Probe("assembled_into_attached_rom")
+		}
 		a := uint16(sc.C("a")) & 7
-		cpu.SetRegs(Regs{PC: uint16(base), RK: byte(base >> 16), SP: 0x01FF, RA: a, RAl: byte(a)})
+		start := Regs{PC: uint16(base), RK: byte(base >> 16), SP: 0x01FF, RA: a, RAl: byte(a)}
+		if sim.Mix(sc.Seed^0x9E1)%6 == 0 && prog[0] != 0xEA {
+			// the CPU has been in use: a one-instruction program (NOP) ran at the same address
+			// before this one was loaded. The caller then sets the registers it knows about,
+			// not the CPU's "previous PC" debugging fields
+			for j := range prog {
+				mem.Poke(base+uint32(j), 0xDB)
+			}
+			mem.Poke(base, 0xEA)
+			cpu.SetRegs(start)
+			if p, _ := sim.RecoverLib(func() { cpu.Step() }); !p {
+				was := cpu.Regs()
+				start.PPC, start.PRK = was.PPC, was.PRK
+				st.Probe("cpu_reused_after_one_instruction_program")
+			}
+			for j, b := range prog {
+				mem.Poke(base+uint32(j), b)
+			}
+		}
+		cpu.SetRegs(start)
 		// widths the assembler was told to assume before the first instruction are applied
 		// by the assume events at index 0 below (the tracker starts at 16-bit/16-bit)
 		ei := 0
